@@ -15,6 +15,7 @@
    the parse model's panic paths are shown unreachable on validated streams in Proofs/ParseTotal.v. *)
 From Coq Require Import List Bool. Import ListNotations.
 From WV Require Import Gen.Gate Gen.Features Model.Gate Proofs.Gate.
+From WV Require Import Model.ModuleM Model.ParseM Proofs.ParseTotal.
 
 Theorem c05_every_payload_validated_before_use : forall k, arm k <> AK_Unchecked.
 Proof. exact no_unchecked_arm. Qed.
@@ -22,6 +23,9 @@ Proof. exact no_unchecked_arm. Qed.
 Theorem c05_bodies_validated_before_use :
   operator_validated_before_use = true /\ body_end_validated = true /\ locals_validated_before_use = true.
 Proof. exact body_gate. Qed.
+
+Theorem c05_features_reach_reader_and_validator : reader_uses_configured_features = true /\ validator_uses_configured_features = true.
+Proof. exact features_reach_reader_and_validator. Qed.
 
 Theorem c05_sound : forall (payload vstate : Type) (kind_of : payload -> payload_kind)
     (vstep : vstate -> payload -> option vstate) (consume_ok : payload -> bool),
@@ -57,11 +61,27 @@ Proof. exact only_stable_removes_exactly. Qed.
 Theorem c05_default_features : forall f, has (features_of false) f = true.
 Proof. exact default_features. Qed.
 
+(* on a stream with the guarantees of the validator (section order, indices in range, counts consistent, supported
+   constant expressions, bodies that are well-formed operator forests - [valid_stream] never mentions parseM) the parse
+   model returns a module: none of its error or panic paths (unwrap, index, usize underflow) is reachable *)
+Theorem c05_parse_total_on_valid_streams cf ver w : valid_stream w -> exists s, parseM cf ver w = POk s.
+Proof. exact (parse_total cf ver w). Qed.
+
+Theorem c05_parse_never_panics_on_valid_streams cf ver w : valid_stream w -> parseM cf ver w <> PPanic.
+Proof. exact (parse_no_panic cf ver w). Qed.
+
+Theorem c05_parse_never_errs_on_valid_streams cf ver w : valid_stream w -> parseM cf ver w <> PErr.
+Proof. exact (parse_no_err cf ver w). Qed.
+
 Print Assumptions c05_every_payload_validated_before_use.
 Print Assumptions c05_bodies_validated_before_use.
+Print Assumptions c05_features_reach_reader_and_validator.
 Print Assumptions c05_sound.
 Print Assumptions c05_complete.
 Print Assumptions c05_unsupported_rejected.
 Print Assumptions c05_supported_kinds.
 Print Assumptions c05_only_stable_removes_exactly.
 Print Assumptions c05_default_features.
+Print Assumptions c05_parse_total_on_valid_streams.
+Print Assumptions c05_parse_never_panics_on_valid_streams.
+Print Assumptions c05_parse_never_errs_on_valid_streams.
